@@ -90,6 +90,8 @@ def symptom_of(diffs: list[str]) -> str:
         if m:
             return f"outcome:{m.group(1)}!={m.group(2)}"
         return "outcome"
+    if "dims order" in d:
+        return "dimorder"
     if "labels differ" in d or "dims" in d or "length" in d or "index present" in d or "MultiIndex" in d:
         return "labels"
     if "NaN pattern" in d or "inf pattern" in d:
